@@ -78,6 +78,7 @@ def shards(tier, seed):
     for func in ("nancumsum", "ffill", "bfill"):
         for layout in LAYOUTS:
             out.append(dict(api="scan", func=func, layout=layout))
+    out.append(dict(api="nd-unknown", func="*", layout="*"))
     out.append(dict(api="xarray", func="*", layout="*"))
     out.append(dict(api="rechunk", func="*", layout="*"))
     return out
@@ -240,6 +241,46 @@ def run_shard(shard):
                 res.nontrivial += 1
                 res.outcomes["ok"] += 1
         res.sample(dict(api=api, func=func, layout=layout))
+    elif api == "nd-unknown":
+        # n-D dask labels without expected_groups: every axis subset must either be refused or give the eager mapping
+        import dask
+        import dask.array as da
+        import flox
+
+        arr = np.arange(16.0).reshape(2, 2, 4) - 5
+        by3 = np.array([[[0, 1, 0, 1], [2, 2, 0, 1]], [[3, 3, 3, 3], [4, 4, 0, 0]]], dtype=float)
+        for by, name in ((by3, "3d"), (by3[0], "2d")):
+            nd = by.ndim
+            axes = [None] + [tuple(c) for r in range(1, nd + 1) for c in itertools.combinations(range(3 - nd, 3), r)]
+            for axis in axes:
+                for grid in (((1, 1), (2,), (4,)), ((2,), (1, 1), (2, 2)), ((1, 1), (1, 1), (2, 2))):
+                    for func in ("sum", "nanmax", "count"):
+                        case = dict(api="nd-unknown", labels=name, axis=list(axis) if axis else None, grid=[list(g) for g in grid], func=func)
+                        tags = dict(api="nd-unknown", func=func, labels_dask=True, expected=False)
+                        res.evaluations += 1
+                        res.states += 1
+                        res.transitions += 1
+                        try:
+                            r, g = flox.groupby_reduce(da.from_array(arr, chunks=grid), da.from_array(by, chunks=grid[3 - nd:]), func=func, axis=axis, fill_value=-1)
+                            got, labs = dask.compute(r, g, scheduler="sync")
+                        except e1.REFUSALS as e:
+                            res.outcomes[f"refused:{type(e).__name__}"] += 1
+                            continue
+                        except Exception as e:
+                            res.outcomes[f"error:{type(e).__name__}"] += 1
+                            continue
+                        eg = e1.call_reduce(arr, by, func=func, axis=axis, fill_value=-1)
+                        res.compared += 1
+                        res.nontrivial += 1
+                        if eg.kind == "ok" and (list(np.asarray(labs).tolist()) != list(np.asarray(eg.groups[0]).tolist())
+                                                or np.asarray(got).shape != np.asarray(eg.result).shape
+                                                or rm.mismatch(np.asarray(got, dtype=float), np.asarray(eg.result, dtype=float), rtol=1e-9).any()):
+                            res.outcomes["mapping-differs"] += 1
+                            res.violate("compute-time-labels", case, dict(labels=labs, values=got), dict(labels=eg.groups[0], values=eg.result),
+                                        tags=dict(tags, kind="mapping"), size=20)
+                        else:
+                            res.outcomes["ok"] += 1
+        res.sample(dict(api=api, labels="2-D and 3-D dask labels without expected_groups", axis="every subset", grids=3))
     elif api == "xarray":
         import xarray as xr
         from flox.xarray import xarray_reduce
